@@ -201,3 +201,63 @@ Proof.
   - inversion Hj; subst; auto.
   - inversion Hj; subst; auto.
 Qed.
+
+(* ------------------------------------------------------------------ padding two axes *)
+Lemma nth_set_nth_neq_nat (l : list nat) a b x : a <> b -> nth a (set_nth b x l) 0 = nth a l 0.
+Proof. apply nth_set_nth_neq. Qed.
+
+(* one call with widths on two axes = pad axis b, then axis a *)
+Theorem pad2_is_composition {V} md sh a ba aa b bb ab (fill : V) (src : idx -> V) i :
+  a <> b ->
+  gather_pad2 md sh a ba aa b bb ab fill src i =
+  gather (MPad md a ba aa true) (map_shape (MPad md b bb ab true) sh) fill
+         (gather (MPad md b bb ab true) sh fill src) i.
+Proof.
+  intro Hab. unfold gather_pad2, pad2_idx, gather. simpl.
+  rewrite nth_set_nth_neq_nat by auto.
+  destruct (pad_src md (nth a sh 0) ba (nth a i 0)) as [ja|]; [|reflexivity].
+  rewrite nth_set_nth_neq_nat by auto.
+  destruct (pad_src md (nth b sh 0) bb (nth b i 0)) as [jb|]; [|reflexivity].
+  rewrite set_nth_comm by auto. reflexivity.
+Qed.
+
+(* ... and the order of the axes does not matter *)
+Theorem pad_axes_commute {V} md sh a ba aa b bb ab (fill : V) (src : idx -> V) i :
+  a <> b ->
+  gather (MPad md a ba aa true) (map_shape (MPad md b bb ab true) sh) fill
+         (gather (MPad md b bb ab true) sh fill src) i =
+  gather (MPad md b bb ab true) (map_shape (MPad md a ba aa true) sh) fill
+         (gather (MPad md a ba aa true) sh fill src) i.
+Proof.
+  intro Hab. unfold gather. simpl.
+  rewrite !nth_set_nth_neq_nat by auto.
+  destruct (pad_src md (nth a sh 0) ba (nth a i 0)) as [ja|] eqn:Ea;
+    destruct (pad_src md (nth b sh 0) bb (nth b i 0)) as [jb|] eqn:Eb;
+    rewrite ?nth_set_nth_neq_nat by auto; rewrite ?Ea, ?Eb; try reflexivity.
+  rewrite set_nth_comm by auto. reflexivity.
+Qed.
+
+Lemma pad2_shape_is_composition sh a ba aa b bb ab md f1 f2 : a <> b ->
+  pad2_shape sh a ba aa b bb ab = map_shape (MPad md a ba aa f1) (map_shape (MPad md b bb ab f2) sh).
+Proof. intro H. unfold pad2_shape. simpl. rewrite nth_set_nth_neq_nat by auto. reflexivity. Qed.
+
+(* ------------------------------------------------------------------ same n, different region *)
+Theorem bin_geo_rejects_shifted env nd b e1 e2 v1 v2 o1 o2 :
+  veval env e1 = OK v1 -> veval env e2 = OK v2 ->
+  eorigin nd e1 = Some o1 -> eorigin nd e2 = Some o2 -> zlist_eqb o1 o2 = false ->
+  veval_bin_geo env nd b e1 e2 = Some (Err ValueE).
+Proof.
+  intros E1 E2 O1 O2 H. unfold veval_bin_geo. rewrite E1, E2, O1, O2, H, andb_false_r. reflexivity.
+Qed.
+
+Theorem bin_geo_same_mesh env nd b e1 e2 v1 v2 o :
+  veval env e1 = OK v1 -> veval env e2 = OK v2 ->
+  eorigin nd e1 = Some o -> eorigin nd e2 = Some o -> msh v1 = msh v2 ->
+  veval_bin_geo env nd b e1 e2 = Some (veval env (Bin b e1 e2)).
+Proof.
+  intros E1 E2 O1 O2 H. unfold veval_bin_geo. simpl. rewrite E1, E2, O1, O2, H. simpl.
+  rewrite natlist_eqb_refl.
+  assert (Z : zlist_eqb o o = true).
+  { unfold zlist_eqb. clear. induction o; simpl; auto. rewrite Z.eqb_refl; auto. }
+  rewrite Z. reflexivity.
+Qed.
